@@ -66,6 +66,24 @@ PRIMS = {
                          {"consts": {"K": 10, "Wk": [1, 2], "InitSet": True}, "runs": 100, "len": 400}],
         },
     },
+    "timer": {
+        "module": "Timer",
+        "obs_trace": "TimerObsTrace",
+        "trace_consts": ["K"],
+        "trace_cfg_consts": ["K <- TraceK", 'Wk = {"A", "B"}'],
+        "flavours": ["local", "pl", "pl-local", "vlock"],
+        "tour_cfgs": {
+            "quick": ["Timer.tour.cfg", "Timer.swap.cfg"],
+            "thorough": ["Timer.tour.cfg", "Timer.swap.cfg", "Timer.tour4.cfg"],
+        },
+        "model_cfgs": {"quick": [], "thorough": ["Timer.deep.cfg"]},
+        "random": {
+            "quick": [{"consts": {"K": 8, "Wk": [1, 2], "Deadlines": [1, 2, 3, 4, 5, 6], "Delays": [1, 2], "MaxNow": 8},
+                       "runs": 20, "len": 250, "flavours": ["local", "pl"]}],
+            "thorough": [{"consts": {"K": 12, "Wk": [1, 2], "Deadlines": [1, 2, 3, 4, 5, 6, 7, 8], "Delays": [1, 2, 3], "MaxNow": 10},
+                          "runs": 300, "len": 400}],
+        },
+    },
 }
 
 ALL = list(PRIMS.keys())
@@ -79,6 +97,7 @@ PROPS = {
     "C06": {"prims": ["semaphore"], "invs": {"semaphore": ["C06", "OrdOK"]}},
     "C07": {"prims": ["semaphore"], "invs": {"semaphore": ["C07", "OrdOK"]}},
     "C14": {"prims": ["event"], "invs": {"event": ["C14"]}},
+    "C15": {"prims": ["timer"], "invs": {"timer": ["C15"]}},
     "C17": {"prims": ALL, "invs": {p: ["C17"] for p in ALL}},
     "C18": {"prims": ALL, "invs": {p: ["C18"] for p in ALL}},
 }
